@@ -25,4 +25,236 @@ theorem bridge_minutes (c u : Nat) (hc : c < 256) :
     have h6 : ¬ ((n : Int) + 7 = 6) := by omega
     simp [h0, h1, h2, h3, h4, h5, h6]
 
+
+/-! ## Replica placement -/
+
+
+theorem rp_char (c : Char) (h : 0 ≤ (c.toNat : Int) - 48 ∧ (c.toNat : Int) - 48 ≤ 2) :
+    c = '0' ∨ c = '1' ∨ c = '2' := by
+  have h1 : c.toNat = 48 ∨ c.toNat = 49 ∨ c.toNat = 50 := by omega
+  have h2 := Char.ofNat_toNat c
+  rcases h1 with h1 | h1 | h1 <;> rw [h1] at h2
+  · left; exact h2.symm
+  · right; left; exact h2.symm
+  · right; right; exact h2.symm
+
+theorem rp_len3_canonical (a b c : Char) (h : (rpFromString [a, b, c]).2 = true) :
+    rpString (rpFromString [a, b, c]).1 = [a, b, c] ∧ rpValid (rpFromString [a, b, c]).1 := by
+  by_cases ha : 0 ≤ (a.toNat : Int) - 48 ∧ (a.toNat : Int) - 48 ≤ 2
+  · by_cases hb : 0 ≤ (b.toNat : Int) - 48 ∧ (b.toNat : Int) - 48 ≤ 2
+    · by_cases hc : 0 ≤ (c.toNat : Int) - 48 ∧ (c.toNat : Int) - 48 ≤ 2
+      · rcases rp_char a ha with rfl | rfl | rfl <;> rcases rp_char b hb with rfl | rfl | rfl <;>
+          rcases rp_char c hc with rfl | rfl | rfl <;> decide
+      · exfalso; simp only [rpFromString, rpFromStringAux, ha, hb, hc, and_self, if_true, if_false] at h; cases h
+    · exfalso; simp only [rpFromString, rpFromStringAux, ha, hb, and_self, if_true, if_false] at h; cases h
+  · exfalso; simp only [rpFromString, rpFromStringAux, ha, if_false] at h; cases h
+
+/-! ## big-endian fields, index entries -/
+
+theorem beBytes_length (k n : Nat) : (beBytes k n).length = k := by
+  induction k with
+  | zero => rfl
+  | succ k ih => simp [beBytes, ih]
+
+theorem beBytes_lt (k n : Nat) : ∀ b ∈ beBytes k n, b < 256 := by
+  induction k with
+  | zero => intro b hb; simp [beBytes] at hb
+  | succ k ih =>
+    intro b hb
+    simp only [beBytes, List.mem_cons] at hb
+    rcases hb with rfl | hb
+    · omega
+    · exact ih b hb
+
+theorem beFold_beBytes (k n acc : Nat) :
+    (beBytes k n).foldl (fun a b => a * 256 + b) acc = acc * 256 ^ k + n % 256 ^ k := by
+  induction k generalizing acc with
+  | zero => simp [beBytes, Nat.mod_one]
+  | succ k ih =>
+    simp only [beBytes, List.foldl_cons]
+    rw [ih, Nat.mod_pow_succ, Nat.pow_succ, Nat.add_mul, Nat.mul_assoc, Nat.mul_comm 256 (256 ^ k),
+      Nat.mul_comm (256 ^ k) (n / 256 ^ k % 256)]
+    omega
+
+theorem beValue_beBytes (k n : Nat) (h : n < 256 ^ k) : beValue (beBytes k n) = n := by
+  unfold beValue
+  rw [beFold_beBytes, Nat.mod_eq_of_lt h]; omega
+
+theorem beValue_append_single (bs : List Nat) (b : Nat) : beValue (bs ++ [b]) = beValue bs * 256 + b := by
+  simp [beValue, List.foldl_append]
+
+theorem size_roundtrip (size : Int) (hs : -(2 ^ 31 : Int) ≤ size ∧ size < (2 ^ 31 : Int)) :
+    u32ToSize (sizeToU32 size) = size := by
+  unfold u32ToSize sizeToU32
+  split <;> omega
+
+theorem sizeToU32_lt (size : Int) : sizeToU32 size < 256 ^ 4 := by
+  unfold sizeToU32; omega
+
+theorem offsetBytes_length (offsetSize units : Nat) (hw : offsetSize = 4 ∨ offsetSize = 5) :
+    (offsetBytes offsetSize units).length = offsetSize := by
+  unfold offsetBytes
+  rcases hw with rfl | rfl <;> simp [beBytes_length]
+
+theorem offset_roundtrip (offsetSize units : Nat) (hw : offsetSize = 4 ∨ offsetSize = 5)
+    (hu : units < 256 ^ offsetSize) : offsetOfBytes (offsetBytes offsetSize units) = units := by
+  unfold offsetOfBytes offsetBytes
+  rcases hw with rfl | rfl
+  · have h4 : (beBytes 4 (units % 256 ^ 4)).length = 4 := beBytes_length _ _
+    simp only [show ¬ (4 = 5) by decide, if_false]
+    rw [List.take_of_length_le (by omega), List.drop_of_length_le (by omega)]
+    rw [beValue_beBytes _ _ (Nat.mod_lt _ (by decide))]
+    simp only [Nat.add_zero]
+    exact Nat.mod_eq_of_lt hu
+  · have h4 : (beBytes 4 (units % 256 ^ 4)).length = 4 := beBytes_length _ _
+    simp only [if_true]
+    rw [List.take_left' h4, List.drop_left' h4]
+    rw [beValue_beBytes _ _ (Nat.mod_lt _ (by decide))]
+    simp only
+    have : units < 256 ^ 5 := hu
+    omega
+
+theorem idx_roundtrip (padding key actual : Nat) (size : Int) (offsetSize : Nat)
+    (hw : offsetSize = 4 ∨ offsetSize = 5) (_hp : 0 < padding) (ha : actual % padding = 0)
+    (hr : actual / padding < 256 ^ offsetSize) (hk : key < 2 ^ 64)
+    (hs : -(2 ^ 31 : Int) ≤ size ∧ size < (2 ^ 31 : Int)) :
+    idxEntryParse padding offsetSize (idxEntryBytes padding offsetSize key actual size) = (key, actual, size) := by
+  unfold idxEntryParse idxEntryBytes
+  have hu : toOffsetUnits padding offsetSize actual = actual / padding := by
+    unfold toOffsetUnits; exact Nat.mod_eq_of_lt hr
+  rw [hu]
+  have hA : (beBytes 8 key).length = 8 := beBytes_length _ _
+  have hO : (offsetBytes offsetSize (actual / padding)).length = offsetSize := offsetBytes_length _ _ hw
+  have hAO : (beBytes 8 key ++ offsetBytes offsetSize (actual / padding)).length = 8 + offsetSize := by
+    rw [List.length_append, hA, hO]
+  have hS : (beBytes 4 (sizeToU32 size)).length = 4 := beBytes_length _ _
+  rw [List.drop_left' hAO, List.append_assoc, List.take_left' hA, List.drop_left' hA, List.take_left' hO,
+    List.take_of_length_le (by omega)]
+  rw [beValue_beBytes 8 key (by simpa using hk), offset_roundtrip _ _ hw hr,
+    beValue_beBytes 4 _ (sizeToU32_lt size), size_roundtrip size hs]
+  have : actual / padding * padding = actual := by
+    have := Nat.div_add_mod actual padding
+    rw [ha, Nat.add_zero, Nat.mul_comm] at this; exact this
+  rw [this]
+
+/-! ## super block -/
+
+theorem rp_byte_rt (rp : RP) (h : rpValid rp) : rpFromByte (rpByte rp) = (rp, true) := by
+  rcases rp with ⟨d, r, s⟩
+  simp only [rpValid] at h
+  have hd : d = 0 ∨ d = 1 ∨ d = 2 := by omega
+  have hr : r = 0 ∨ r = 1 ∨ r = 2 := by omega
+  have hs : s = 0 ∨ s = 1 ∨ s = 2 := by omega
+  rcases hd with rfl | rfl | rfl <;> rcases hr with rfl | rfl | rfl <;> rcases hs with rfl | rfl | rfl <;> decide
+
+theorem sb_roundtrip (s : SuperBlock) (hv : s.version < 256) (hrp : rpValid s.rp)
+    (hc : s.ttl.count < 256) (hu : s.ttl.unit < 256) (hr : s.rev < 65536) (he : s.extra.length < 65535) :
+    sbRead (sbBytes s) = some { s with ttl := loadTTLFromBytes s.ttl.count s.ttl.unit } := by
+  rcases s with ⟨v, rp, ⟨c, u⟩, rev, extra⟩
+  simp only at hv hrp hc hu hr he
+  have hrev : beValue (beBytes 2 rev) = rev := beValue_beBytes 2 rev (by simpa using hr)
+  have hrl : (beBytes 2 rev).length = 2 := beBytes_length _ _
+  unfold sbRead sbBytes
+  simp only
+  generalize hT : (if extra.isEmpty = true then [0, 0] else beBytes 2 extra.length ++ extra) = T
+  have hTl : 2 ≤ T.length := by
+    subst hT; split
+    · simp
+    · simp [beBytes_length]
+  have hlen : ([v % 256, rpByte rp, c % 256, u % 256] ++ beBytes 2 rev ++ T).length = 6 + T.length := by
+    simp [hrl]; omega
+  rw [if_neg (by omega)]
+  have e1 : ([v % 256, rpByte rp, c % 256, u % 256] ++ beBytes 2 rev ++ T).getD 1 0 = rpByte rp := by simp
+  have e0 : ([v % 256, rpByte rp, c % 256, u % 256] ++ beBytes 2 rev ++ T).getD 0 0 = v := by
+    simp; omega
+  have e2 : ([v % 256, rpByte rp, c % 256, u % 256] ++ beBytes 2 rev ++ T).getD 2 0 = c := by
+    simp; omega
+  have e3 : ([v % 256, rpByte rp, c % 256, u % 256] ++ beBytes 2 rev ++ T).getD 3 0 = u := by
+    simp; omega
+  have d4 : (([v % 256, rpByte rp, c % 256, u % 256] ++ beBytes 2 rev ++ T).drop 4).take 2 = beBytes 2 rev := by
+    rw [List.append_assoc, List.drop_left' (by rfl), List.take_left' hrl]
+  have d6 : ([v % 256, rpByte rp, c % 256, u % 256] ++ beBytes 2 rev ++ T).drop 6 = T := by
+    rw [List.drop_left' (by simp [hrl])]
+  rw [e0, e1, e2, e3, d4, d6, hrev, rp_byte_rt rp hrp]
+  simp only
+  have d8 : ([v % 256, rpByte rp, c % 256, u % 256] ++ beBytes 2 rev ++ T).drop 8 = T.drop 2 := by
+    rw [show 8 = 6 + 2 from rfl, ← List.drop_drop, d6]
+  rw [d8, hlen]
+  by_cases hE : extra.isEmpty = true
+  · rw [if_pos hE] at hT
+    subst hT
+    have : extra = [] := by simpa using hE
+    subst this
+    simp [beValue]
+  · rw [if_neg hE] at hT
+    subst hT
+    have hEl : 0 < extra.length := by
+      cases extra with
+      | nil => simp at hE
+      | cons x xs => simp
+    have h2 : (beBytes 2 extra.length).length = 2 := beBytes_length _ _
+    have hv2 : beValue (beBytes 2 extra.length) = extra.length :=
+      beValue_beBytes 2 _ (by have : (256:Nat) ^ 2 = 65536 := by decide
+                              omega)
+    rw [List.take_left' h2, List.drop_left' h2, hv2, if_neg (by omega), List.length_append, h2,
+      if_neg (by omega), List.take_of_length_le (Nat.le_refl _)]
+
+/-! ## strconv models, TTL grammar -/
+
+def pdStep (base : Nat) (acc : Option Nat) (c : Char) : Option Nat :=
+  match acc, (if base = 16 then hexVal c else digitVal c) with
+  | some a, some d => some (a * base + d)
+  | _, _ => none
+
+theorem parseDigits_eq (base : Nat) (cs : List Char) :
+    parseDigits base cs = if cs.isEmpty then none else cs.foldl (pdStep base) (some 0) := rfl
+
+theorem pdFold_none (base : Nat) (cs : List Char) : cs.foldl (pdStep base) none = none := by
+  induction cs with
+  | nil => rfl
+  | cons c cs ih => simpa [List.foldl_cons, pdStep] using ih
+
+theorem parseDigits_cons_nondigit (c : Char) (r : List Char) (h : digitVal c = none) :
+    parseDigits 10 (c :: r) = none := by
+  rw [parseDigits_eq]
+  simp only [List.isEmpty_cons, List.foldl_cons]
+  have : pdStep 10 (some 0) c = none := by simp [pdStep, h]
+  rw [this, pdFold_none]; rfl
+
+theorem atoi_of_digits (cs : List Char) (v : Nat) (h : parseDigits 10 cs = some v) (hv : v < 2 ^ 63) :
+    atoi cs = ((v : Int), true) := by
+  unfold atoi
+  split
+  rename_i neg ds heq
+  split at heq
+  · rw [parseDigits_cons_nondigit _ _ (by decide)] at h; cases h
+  · rw [parseDigits_cons_nondigit _ _ (by decide)] at h; cases h
+  · cases heq
+    rw [h]
+    simp [hv]
+
+theorem ttl_in_grammar (s : List Char) (d : TTL) (h : ttlDenotation s = some d) : readTTL s = (d, true) := by
+  unfold ttlDenotation at h
+  unfold readTTL
+  split at h
+  · rename_i hl; rw [hl]; cases h; rfl
+  · rename_i last hl
+    rw [hl]
+    simp only at h ⊢
+    generalize hp : (if '0' ≤ last ∧ last ≤ '9' then (s, 'm') else (s.dropLast, last)) = p at h ⊢
+    rcases p with ⟨cs, u⟩
+    simp only at h ⊢
+    split at h
+    · cases h
+    · split at h
+      · cases h
+      · rename_i n hn
+        split at h
+        · rename_i hle
+          cases h
+          rw [atoi_of_digits cs n hn (by omega)]
+          simp only [Prod.mk.injEq, and_true, TTL.mk.injEq]
+          omega
+        · cases h
+
 end SwV.Lemmas.C08
